@@ -16,7 +16,7 @@ ASSUMPTIONS = ["usize is 64 bits", "vectors longer than 2^64 are not modelled"]
 
 def generate(seed, tier):
     rng = Rng(seed)
-    n = {"quick": 4, "thorough": 6, "search": 5}[tier]
+    n = {"quick": 4, "thorough": 5, "search": 5}[tier]
     out = ic.exhaustive(ID, n, False, strides=(2,) if tier == "quick" else (2, 1 << 63))
     out += ic.random_seqs(ID, rng, {"quick": 300, "thorough": 3000, "search": 1500}[tier], {"quick": 40, "thorough": 400, "search": 60}[tier], False)
     out += ic.stride_scripts(ID, rng, 200, 3 if tier == "quick" else 4)
